@@ -108,14 +108,23 @@ def oracle_value(ctx, key, desc, logd, grad, x, lo=None, hi=None, tol=ORTOL, in_
 
 
 def input_variants(x):
-    """the same numbers in other containers / dtypes / layouts (G1, G7)"""
+    """the same numbers in other containers / dtypes / layouts (G1, G7, narrow dtypes)"""
     x = np.asarray(x, dtype=float)
     out = [("list", [float(v) for v in x])]
     if np.all(x == np.round(x)):
         out.append(("int64", x.astype(np.int64)))
         out.append(("int32", x.astype(np.int32)))
+        out.append(("intlist", [int(v) for v in x]))
+        if np.all(np.abs(x) <= 127):
+            out.append(("int8", x.astype(np.int8)))
+        if np.all((x >= 0) & (x <= 255)):
+            out.append(("uint8", x.astype(np.uint8)))
+        if np.all((x == 0) | (x == 1)):
+            out.append(("bool", x.astype(bool)))
     if np.all(x.astype(np.float32).astype(float) == x):
         out.append(("float32", x.astype(np.float32)))
+    if np.all(x.astype(np.float16).astype(float) == x):
+        out.append(("float16", x.astype(np.float16)))
     out.append(("strided", np.repeat(x, 2)[::2]))
     out.append(("negstride", x[::-1].copy()[::-1]))
     ro = x.copy(); ro.setflags(write=False)
@@ -123,23 +132,38 @@ def input_variants(x):
     return out
 
 
-def check_variants(ctx, key, desc, call, x, base, logd=None):
-    """gradient at the same numbers in another representation: the same vector (or a refusal); the caller's
-    array is never modified (G2)"""
+# numpy evaluates log/sqrt/... of int8/uint8/bool arrays in float16 and of float32 arrays in float32: the precision
+# of the *input dtype's float companion* is all that can be demanded (floating point is not carried); wrap-around,
+# truncation and logical arithmetic are O(1) errors and remain visible
+VTOL = {"float32": 2e-5, "float16": 2e-2, "int8": 2e-2, "uint8": 2e-2, "bool": 2e-2}
+
+
+def check_variants(ctx, key, desc, call, x, base, base_status="value"):
+    """gradient at the same numbers in another representation: the same answer as for the float64 array (or a
+    refusal) — the same vector inside the support, a non-finite vector outside it; the caller's array is never
+    modified (G2)"""
     for name, xv in input_variants(x):
         snap = xv.tobytes() if isinstance(xv, np.ndarray) else list(xv)
-        st, exc, val = classify(lambda: call(xv), len(base))
+        st, exc, val = classify(lambda: call(xv), len(x))
         after = xv.tobytes() if isinstance(xv, np.ndarray) else list(xv)
+        d = {**desc, "variant": name}
         if snap != after:
-            ctx.fail(key + f":input-{name}:mutated", {**desc, "variant": name}, "caller's point unchanged", "modified", "gradient modified the caller's evaluation point")
+            ctx.fail(key + f":input-{name}:mutated", d, "caller's point unchanged", "modified", "gradient modified the caller's evaluation point")
         if st == "raise":
             continue          # refusing an unusual container is allowed
-        # float32 input: transcendental functions are then evaluated in single precision (rounding ~1e-7 relative,
-        # floating point is not carried); dtype bugs (integer truncation, buffers of the input's dtype) are O(1)
-        if st != "value" or not cmp_vec(list(base), val.tolist(), 2e-5 if name == "float32" else 1e-7):
-            ctx.disagree(key + f":input-{name}", {**desc, "variant": name}, list(base), None if val is None else val.tolist(),
+        if base_status == "nan":
+            if st != "nan":
+                got = f"{st}: {None if val is None else val.tolist()}"
+                ctx.disagree(key + f":input-{name}", d, "non-finite (as for the float64 point)", got, "status depends on the dtype of the point")
+                ctx.fail(key + f":input-{name}", d, "non-finite gradient outside the support", got,
+                         "a finite vector is returned outside the support when the evaluation point has another dtype")
+            continue
+        # float32/float16 input: transcendental functions are then evaluated in that precision (floating point is
+        # not carried); dtype bugs (integer truncation/wrap, buffers of the input's dtype) are O(1)
+        if st != "value" or not cmp_vec(list(base), val.tolist(), VTOL.get(name, 1e-7)):
+            ctx.disagree(key + f":input-{name}", d, list(base), None if val is None else val.tolist(),
                          "same numbers in another dtype/layout give another gradient")
-            ctx.fail(key + f":input-{name}", {**desc, "variant": name}, list(base), f"{st}: {None if val is None else val.tolist()}",
+            ctx.fail(key + f":input-{name}", d, list(base), f"{st}: {None if val is None else val.tolist()}",
                      "gradient depends on the dtype/layout of the evaluation point, not only on its value")
 
 
@@ -177,9 +201,28 @@ def run(ctx):
     timing = {"lean_drive_s": 0.0, "lean_drive_calls": 0, "sections": {}}
     ctx.extra_cov["timing"] = timing
     _drive = ctx.lean.drive
+    _built = {"ok": False}
+    def _direct(lines):
+        """later batches: the model modules were built (under the lock) by the first `drive` of this run; run the
+        driver directly, same protocol and the same line-count check"""
+        import subprocess
+        from harness.core import LEAN
+        if not lines:
+            return []
+        r = subprocess.run(["lake", "env", "lean", "--run", ctx.lean.driver_file], cwd=LEAN, input="\n".join(lines) + "\n",
+                           capture_output=True, text=True, timeout=3000)
+        out = r.stdout.split("\n")
+        if out and out[-1] == "":
+            out.pop()
+        if r.returncode != 0 or len(out) != len(lines):
+            raise RuntimeError(f"driver failed rc={r.returncode} got {len(out)} lines for {len(lines)}:\n" + r.stderr[-2000:])
+        return out
     def drive_(lines, driver=None):
         t0 = _time.time()
-        out = _drive(lines, driver)
+        if _built["ok"] and driver is None:
+            out = _direct(lines)
+        else:
+            out = _drive(lines, driver); _built["ok"] = True
         timing["lean_drive_s"] = round(timing["lean_drive_s"] + _time.time() - t0, 2); timing["lean_drive_calls"] += 1
         return out
     ctx.lean.drive = drive_
@@ -377,6 +420,8 @@ def run(ctx):
                     l0 = float("nan")
             if math.isfinite(l0):
                 ctx.fail(key + ":nan-inside-support", desc, "a finite gradient (logd is finite here)", "NaN", "NaN gradient where the log-density is finite")
+            else:
+                check_variants(ctx, key, desc, dist.gradient, xa, None, base_status="nan")
             continue
         if st == "value":
             mg = decv(mtoks[2]); md = decv(mtoks[3]); ml = dec(mtoks[1])
@@ -920,6 +965,7 @@ def run(ctx):
     HGEOMS = ["default", "Continuous1D", "Mapped+grad", "Discrete"]
     OPS = ["inplace", "inplace", "fresh-equal-earlier", "different", "inplace", "logd-then-inplace", "forward-then-inplace",
            "different", "inplace", "fresh-equal-earlier", "inplace"]
+    user_state = []  # (key, the user's stored array, byte snapshot): must be untouched at the end
     hist = []       # (key, desc, target_fn(logd-like), records[(op, x_copy, dir_copy, val/status)], predict_lines builder)
     hlines = []
     hmeta = []
@@ -1018,24 +1064,48 @@ def run(ctx):
                 lpred = lambda x, d_, F=F, zmap=zmap, vjp_=vjp_, data=data, cv=cv: vjp_(x, (data - F(zmap(x))) / cv)
                 lean_line = lambda x, d_, F=F, J=J, zmap=zmap, Gq=Gq, data=data, cv=cv: (
                     f"lik {qv(data - F(zmap(x)))} {qm(np.atleast_2d(J(zmap(x))))} {qm(np.diag(1.0 / cv))} {Gq(x)}", 1)
+                # prior: built-in Gaussian, or a USER density whose gradient callback returns a STORED array
+                # (the same constant array object every call / a persistent buffer it refills): user state that the
+                # library must neither modify nor alias in what it returns
+                up = (k // len(HKINDS)) % 3 if kind in ("posterior", "multi") else 0
+                if up == 1:
+                    cst = np.array([dy(rng, -3, 3) for _ in range(n)]); cref = cst.copy()
+                    uprior = lambda: D.UserDefinedDistribution(dim=n, logpdf_func=lambda x, cref=cref: float(cref @ x),
+                                                               gradient_func=lambda x, cst=cst: cst, name="x")
+                    pgrad_ = lambda x, cref=cref: cref.copy()
+                    user_state.append((f"history:{kind}:user-constant-array", cst, cst.tobytes()))
+                elif up == 2:
+                    aq = rng.choice([0.5, 1.0, 2.0]); ubuf = np.zeros(n)
+                    def ugrad(x, aq=aq, ubuf=ubuf):
+                        ubuf[:] = -aq * np.asarray(x, dtype=float); return ubuf
+                    uprior = lambda: D.UserDefinedDistribution(dim=n, logpdf_func=lambda x, aq=aq: -0.5 * aq * float(np.dot(x, x)),
+                                                               gradient_func=ugrad, name="x")
+                    pgrad_ = lambda x, aq=aq: -aq * x
+                if up:
+                    desc0 = {**desc0, "prior": "user-constant-array" if up == 1 else "user-buffer"}
+                    mk = mk + "+userprior"
                 if kind == "likelihood":
                     obj = lik; predict = lpred
                 elif kind == "posterior":
                     pm_ = np.array([dy(rng, -1, 1) for _ in range(n)]); pc = rng.choice([0.5, 1.0, 2.0])
+                    if not up:
+                        pgrad_ = lambda x, pm_=pm_, pc=pc: -(x - pm_) / pc
                     with quiet():
-                        obj = D.Posterior(lik, D.Gaussian(pm_, pc, geometry=dgeo))
-                    predict = lambda x, d_, lpred=lpred, pm_=pm_, pc=pc: lpred(x, d_) - (x - pm_) / pc
-                    extra = lambda x, pm_=pm_, pc=pc: -(x - pm_) / pc
+                        obj = D.Posterior(lik, uprior() if up else D.Gaussian(pm_, pc, geometry=dgeo))
+                    predict = lambda x, d_, lpred=lpred, pgrad_=pgrad_: lpred(x, d_) + pgrad_(x)
+                    extra = lambda x, pgrad_=pgrad_: pgrad_(x)
                 else:
                     A2 = np.array([[rng.randint(-2, 2) for _ in range(n)]], dtype=float); d2 = np.array([dy(rng, -2, 2)])
+                    if not up:
+                        pgrad_ = lambda x: -x / 2.0
                     with quiet():
-                        xx = D.Gaussian(np.zeros(n), 2.0, geometry=dgeo, name="x")
+                        xx = uprior() if up else D.Gaussian(np.zeros(n), 2.0, geometry=dgeo, name="x")
                         y1 = D.Gaussian(mod(xx), cov=(cv if m > 1 else float(cv[0])), name="y1")
                         y2 = D.Gaussian(LinearModel(A2, domain_geometry=dgeo)(xx), 0.5, name="y2")
                         obj = D.JointDistribution(xx, y1, y2)(y1=data, y2=d2)
-                    predict = lambda x, d_, lpred=lpred, A2=A2, d2=d2, zmap=zmap, gmap=gmap: (
-                        lpred(x, d_) - x / 2.0 + gmap(x) * (A2.T @ ((d2 - A2 @ zmap(x)) / 0.5)))
-                    extra = lambda x, A2=A2, d2=d2, zmap=zmap, gmap=gmap: -x / 2.0 + gmap(x) * (A2.T @ ((d2 - A2 @ zmap(x)) / 0.5))
+                    predict = lambda x, d_, lpred=lpred, A2=A2, d2=d2, zmap=zmap, gmap=gmap, pgrad_=pgrad_: (
+                        lpred(x, d_) + pgrad_(x) + gmap(x) * (A2.T @ ((d2 - A2 @ zmap(x)) / 0.5)))
+                    extra = lambda x, A2=A2, d2=d2, zmap=zmap, gmap=gmap, pgrad_=pgrad_: pgrad_(x) + gmap(x) * (A2.T @ ((d2 - A2 @ zmap(x)) / 0.5))
                 call = lambda x, d_, obj=obj: obj.gradient(x)
                 scalar = lambda x, d_, obj=obj: float(obj.logd(x))
                 side_logd = lambda x, obj=obj: obj.logd(x)
@@ -1083,8 +1153,17 @@ def run(ctx):
                 ctx.disagree(key, desc, pred.tolist(), val.tolist(),
                              "gradient differs from the (pure) model at the point's current value")
             ln, tokidx = lean_line(xv, dv)
-            hlines.append(ln); hmeta.append((key, desc, tokidx, extra(xv), val))
-            hist.append((key, desc, scalar, xv, dv, val, mapped))
+            hlines.append(ln); hmeta.append((key, desc, tokidx, extra(xv), val.copy()))
+            hist.append((key, desc, scalar, xv, dv, val.copy(), mapped))
+            if kind in ("posterior", "multi", "likelihood") and val.flags.writeable:
+                # the caller may do what it likes with the returned array: later calls must not depend on it
+                val += 1000.0
+                if RETAINED and RETAINED[-1][1] is val:
+                    RETAINED[-1] = (RETAINED[-1][0], val, val.tobytes())
+    for ukey, arr, snap in user_state:
+        if arr.tobytes() != snap:
+            ctx.fail(ukey + ":user-state-modified", {"history": ukey}, "the array stored by the user's gradient callback is untouched",
+                     arr.tolist(), "a gradient call modified an array owned by a user callback (accumulated into it in place)")
     # oracle after the histories (fresh arrays; the objects' logd/forward at the recorded values)
     for key, desc, scalar, xv, dv, val, mapped in hist:
         oracle_value(ctx, key, desc, (lambda z, scalar=scalar, dv=dv: scalar(z, dv)), val, xv,
@@ -1415,7 +1494,9 @@ def run(ctx):
                 obj = mk(); fresh = mk()
         except Exception as e:  # noqa
             ctx.note(f"fd-history constructor refused {name}: {e!r}"[:160]); continue
-        xs = np.array([0.5, 0.25, 0.625][:n_fd]) if name in ("beta", "Gamma") else np.array([dy(rng, -2, 2, 8) + 0.0625 for _ in range(n_fd)])
+        xs = np.array([0.5, 0.25, 0.625][:n_fd]) if name in ("beta", "Gamma") else np.array([dy(rng, -2, 2, 8) + off for _, off in zip(range(n_fd), (1 / 16, 3 / 32, 5 / 64))])
+        # (distinct odd offsets: neither x_i - mean_i nor any difference x_i - x_j - (mean_i - mean_j) is zero, so the
+        #  piecewise-linear Laplace / LMRF densities are differentiable at the point)
         mlist = mline.split(); gi = 0
         done = []
         for op in sc:
@@ -1524,6 +1605,71 @@ def run(ctx):
                              [0.0] * n_ if fam0 in ("beta", "lognormal") else None, [1.0] * n_ if fam0 == "beta" else None)
             elif st == "nan" and st_f == "nan":
                 pass
+
+    # ======================================================================= 12. integer-valued points in every dtype, inside / on / outside the support
+    # The float64 array of the same numbers is the reference (its status and vector were validated in sections 1-5
+    # and are re-validated here by the oracle); every other container/dtype must give the same answer or refuse:
+    # in particular a NaN answer outside the support must not turn into a finite integer vector.
+    def int_objects():
+        n = 3
+        A = np.array([[1.0, -1.0, 2.0], [0.0, 2.0, 1.0]]); dat = np.array([1.0, -2.0])
+        lik = lambda: D.Gaussian(LinearModel(A), 2.0).to_likelihood(dat)
+        def multi(prior):
+            xx = prior
+            y1 = D.Gaussian(LinearModel(A)(xx), 2.0, name="y1"); y2 = D.Gaussian(LinearModel(A[:1])(xx), 0.5, name="y2")
+            return D.JointDistribution(xx, y1, y2)(y1=dat, y2=np.array([0.5]))
+        return [
+            ("uniform", lambda: D.Uniform(np.array([-2.0, 0.0, 1.0]), np.array([3.0, 5.0, 4.0])), [[1, 2, 3], [3, 5, 1], [-2, 0, 4], [1, 7, 3], [-3, 2, 2], [0, 0, 0]]),
+            ("uniform-scalar-bounds", lambda: D.Uniform(0.0, 4.0, geometry=3), [[1, 2, 3], [0, 4, 1], [1, 5, 3], [1, 1, 1]]),
+            ("beta", lambda: D.Beta(np.array([2.0, 3.0, 1.5]), 2.5), [[0, 1, 0], [1, 1, 1], [2, 0, 1]]),
+            ("invgamma", lambda: D.InverseGamma(2.0, -1.0, 1.5, geometry=3), [[1, 2, 3], [0, 1, 5], [-1, 2, 3], [-2, 1, 1]]),
+            ("cauchy", lambda: D.Cauchy(np.array([0.5, -1.0, 2.0]), 2.0), [[1, 2, 3], [0, 0, 0], [-3, 1, 100]]),
+            ("cauchy-bad-scale", lambda: D.Cauchy(np.array([0.5, -1.0, 2.0]), np.array([1.0, 0.0, 2.0])), [[1, 2, 3]]),
+            ("mhn", lambda: D.ModifiedHalfNormal(2.0, 1.0, 0.5), [[1], [3], [0], [-2]]),
+            ("lognormal", lambda: D.Lognormal(np.array([0.5, -1.0, 0.25]), 2.0), [[1, 2, 3], [1, 1, 1], [0, 1, 2], [-1, 2, 3]]),
+            ("smoothedlaplace", lambda: D.SmoothedLaplace(np.array([1.0, -1.0, 2.0]), 2.0, 0.25), [[1, 2, 3], [1, -1, 2], [0, 0, 0]]),
+            ("gaussian", lambda: D.Gaussian(np.array([1.0, -1.0, 2.0]), cov=np.array([[2.0, 1, 0], [1, 2, 1], [0, 1, 2]])), [[1, 2, 3], [1, -1, 2], [0, 0, 0], [100, -100, 1]]),
+            ("gmrf", lambda: D.GMRF(np.array([1.0, -1.0, 2.0]), 2.0), [[1, 2, 3], [0, 1, 0]]),
+            ("cmrf", lambda: D.CMRF(np.array([1.0, -1.0, 2.0]), 2.0), [[1, 2, 3], [1, -1, 2]]),
+            ("likelihood", lik, [[1, 2, 3], [0, 0, 0], [1, 0, 1]]),
+            ("posterior-uniform-prior", lambda: D.Posterior(lik(), D.Uniform(np.array([-2.0, 0.0, 1.0]), np.array([3.0, 5.0, 4.0]))), [[1, 2, 3], [1, 7, 3], [3, 5, 4], [-3, 0, 1]]),
+            ("posterior-beta-prior", lambda: D.Posterior(lik(), D.Beta(np.array([2.0, 3.0, 1.5]), 2.5)), [[0, 1, 0], [1, 2, 0]]),
+            ("posterior-gaussian-prior", lambda: D.Posterior(lik(), D.Gaussian(np.zeros(3), 2.0)), [[1, 2, 3], [0, 0, 0]]),
+            ("multi-uniform-prior", lambda: multi(D.Uniform(np.array([-2.0, 0.0, 1.0]), np.array([3.0, 5.0, 4.0]), name="x")), [[1, 2, 3], [1, 7, 3], [-3, 0, 1]]),
+            ("multi-invgamma-prior", lambda: multi(D.InverseGamma(2.0, -1.0, 1.5, geometry=3, name="x")), [[1, 2, 3], [-1, 2, 3]]),
+        ]
+    for name, mk, points in int_objects():
+        try:
+            with quiet():
+                obj = mk()
+        except Exception as e:  # noqa
+            ctx.note(f"int-dtype object refused {name}: {e!r}"[:160]); continue
+        f_logd = lambda z, obj=obj: float(np.asarray(obj.logd(np.asarray(z, dtype=float))).ravel()[0])
+        for pt in points:
+            xa = np.array(pt, dtype=float)
+            desc = {"int-points": name, "x": pt}
+            ctx.case("int-dtype-points", desc)
+            st, exc, val = classify(lambda: obj.gradient(xa), len(pt))
+            bump(f"int-points:{name}:{st}")
+            with quiet():
+                try:
+                    l0 = f_logd(xa)
+                except Exception:  # noqa
+                    l0 = float("nan")
+            where = "inside" if math.isfinite(l0) else "outside"
+            key = f"int-points:{name}:{where}-support"
+            if st == "value":
+                if not oracle_value(ctx, key, desc, f_logd, val, xa):
+                    continue
+                check_variants(ctx, key, desc, obj.gradient, xa, val)
+            elif st == "nan":
+                if math.isfinite(l0):
+                    ctx.fail(key + ":nan-inside-support", desc, "finite gradient (logd is finite here)", "NaN", "NaN gradient where the log-density is finite")
+                else:
+                    check_variants(ctx, key, desc, obj.gradient, xa, None, base_status="nan")
+            elif st in ("none", "not-vector"):
+                if not (name == "mhn"):
+                    ctx.fail(key, desc, "vector or raise", st, "neither a gradient vector nor a refusal")
 
     # ======================================================================= 11. retained outputs re-verified (G8)
     ctx.case("retained-outputs", {"n_arrays": len(RETAINED)})
